@@ -592,3 +592,10 @@ func (p *Peer) ReadApp() ([]byte, error) {
 
 // Transcript returns a copy of the handshake transcript so far.
 func (p *Peer) Transcript() []byte { return append([]byte{}, p.transcript...) }
+
+// WriteRecord seals one record of any content type under the current write state (after a completed handshake: the
+// session keys) and sends it — for scripts that go on after the handshake (HelloRequest, stray handshake messages).
+func (p *Peer) WriteRecord(typ byte, data []byte) error {
+	_, err := p.Conn.Write(p.out.Seal(typ, data, p.Rand(16), -1))
+	return err
+}
